@@ -74,23 +74,13 @@ fn drive(cx: &mut Ctx, mode: Mode, inline_opt: bool, label: &str, with_model: bo
                 v.sort();
             }
         }
-        // SABOTAGE (sanity test only, removed afterwards)
-        match std::env::var("HX_C36_SABOTAGE").ok().as_deref() {
-            Some("1") => {
-                // as if apply_pagination did not sort
-                if let (Mode::Dir, Op::ListTables(..), Ans::Names(v)) = (mode, &op, &mut a) {
-                    v.reverse();
-                }
+        // direct oracle: a listing served by apply_pagination is sorted
+        if let (false, Op::ListTables(..) | Op::ListNs(..), Ans::Names(v)) = (manifest_listing(mode, &op), &op, &a) {
+            if v.windows(2).all(|w| w[0] <= w[1]) {
+                cx.sink.oracle_ok();
+            } else {
+                cx.fail(None, "a paginated listing is not sorted", json!({"mode": mode.name(), "label": label, "op": op.json(), "implementation": a.json()}));
             }
-            Some("2") => {
-                // as if table_exists answered Ok for a name that was never created
-                if let (Op::TableExists(_), Ans::Fail(1)) = (&op, &a) {
-                    if label.starts_with("clean") {
-                        a = Ans::Done;
-                    }
-                }
-            }
-            _ => {}
         }
         if let (Op::CreateEmptyTable(_) | Op::CreateTable(_), Ans::Loc(c, _, raw)) = (&op, &a) {
             if c.starts_with('#') && raw.len() >= 8 {
